@@ -18,6 +18,7 @@ CHECKS = {
             {'engine': 'protosim', 'config': 'asan', 'variant': 'bake', 'runs': [20000, 2000000]},
             {'engine': 'protosim', 'config': 'asan32', 'variant': 'bake', 'runs': [4000, 400000]},
             {'engine': 'protosim', 'config': 'asan', 'variant': 'bakesweep', 'runs': [48, 6000]},
+            {'engine': 'protosim', 'config': 'asan', 'variant': 'bakeadv', 'runs': [3000, 300000]},
         ],
         'sigs_per_leg': True,
         'rule': ('a case is one simulated session of BMQV, BSTS, BPACE or BAUTH between two party tasks that share only the simulated channel, followed by a '
@@ -27,6 +28,8 @@ CHECKS = {
                  'bad-point substitution, truncate, extend, drop, duplicate, replay from the previous session, short reads, read/write errors, stall) x inconsistent configuration '
                  '(different passwords, private key not matching the certificate, different hello, wrong peer certificate); distinct = distinct (protocol, l, flags, drivers, mismatch, '
                  'fault kinds x messages, who accepted) tuples; every session is non-trivial (two parties exchange >= 2 messages). '
+                 'Leg bakeadv: one side of BPACE is an adversary task that does not know the password, offers the off-curve point (x, 0) (order 2 on the curve it defines) and derives '
+                 'its key and confirmation tag from the guess u(x,0) = (x,0); the victim (step host or Run driver, either role) must fail where it requires confirmation and must never hold the predicted key. '
                  'Leg bakesweep: one run draws a configuration and then alters EVERY octet position of EVERY message in turn (one session per position): '
                  'the single-octet quantifier is enumerated completely for each configuration drawn (quick: l = 128; thorough: all three curves)'),
         'real': REAL_ALL,
@@ -247,7 +250,7 @@ MANIFEST_TEXT = {
     'C04': {
         'text': ('Seeded search over two-party sessions of the real bake/BAUTH code: both parties run as simulated tasks (library Run drivers or step hosts) that share only '
                  'a simulated channel on which message faults are injected; honest sessions must agree, tampered sessions must never agree (and must fail at a confirming party), '
-                 'lost messages must end in an error rather than a hang, and a fault-free session afterwards must succeed. Evidence, not proof.'),
+                 'lost messages must end in an error rather than a hang, and a fault-free session afterwards must succeed; a password-less BPACE adversary offering off-curve points must never be accepted. Evidence, not proof.'),
         'design_ref': 'DESIGN.md §3 C04',
         'note': 'Trusted: the channel model and the per-protocol message flow in sim/protosim/proto_bake.c (transcribed from bake.h/btok.h). Known finding: BSTS Run drivers with |M2| or |M3| = 0 mod 512.',
         'technique': 'deterministic simulation: two party tasks over a simulated lossy/corrupting channel with agreement and tamper oracles',
